@@ -1036,7 +1036,7 @@ func (m *machine) LowerInstr(instr *ssa.Instruction) {
 	case ssa.OpcodeUload8, ssa.OpcodeUload16, ssa.OpcodeUload32, ssa.OpcodeSload8, ssa.OpcodeSload16, ssa.OpcodeSload32:
 		ptr, offset, _ := instr.LoadData()
 		ret := m.c.VRegOf(instr.Return())
-		m.lowerExtLoad(op, ptr, offset, ret)
+		m.lowerExtLoad(op, ptr, offset, ret, instr.Return().Type().Bits() == 64)
 	case ssa.OpcodeVconst:
 		result := m.c.VRegOf(instr.Return())
 		lo, hi := instr.VconstData()
@@ -1558,9 +1558,21 @@ func (m *machine) lowerLoad(ptr ssa.Value, offset uint32, typ ssa.Type, dst rega
 	m.insert(load)
 }
 
-func (m *machine) lowerExtLoad(op ssa.Opcode, ptr ssa.Value, offset uint32, dst regalloc.VReg) {
+func (m *machine) lowerExtLoad(op ssa.Opcode, ptr ssa.Value, offset uint32, dst regalloc.VReg, dst64bit bool) {
 	mem := newOperandMem(m.lowerToAddressMode(ptr, offset))
 	load := m.allocateInstr()
+	switch {
+	// The upper half of a register holding a 32-bit value must be zero (it is used as
+	// it is e.g. as the index of an address mode), so the sign is only extended to 32 bits.
+	case op == ssa.OpcodeSload8 && !dst64bit:
+		load.asMovsxRmR(extModeBL, mem, dst)
+		m.insert(load)
+		return
+	case op == ssa.OpcodeSload16 && !dst64bit:
+		load.asMovsxRmR(extModeWL, mem, dst)
+		m.insert(load)
+		return
+	}
 	switch op {
 	case ssa.OpcodeUload8:
 		load.asMovzxRmR(extModeBQ, mem, dst)
